@@ -253,7 +253,7 @@ func runOnce(c *core.Ctx) {
 		if alldone {
 			break
 		}
-		c.Fail("HARNESS.stuck", "no event to inject but tasks are not done: %s", c.S.StalledString())
+		c.Stuck("no event to inject but tasks are not done: %s", c.S.StalledString())
 		return
 	}
 }
